@@ -1,4 +1,5 @@
 """C16 - Rendering depends only on current content and width, not on render history."""
+import os
 from harness.props.common import *
 from harness.gen.trees import gen_tree, gen_ops
 
@@ -43,7 +44,7 @@ def module_state_scan():
     """names assigned at module level or through `global` in the rendering modules (beyond imports, classes, functions, __all__, log)"""
     import ast
     bad = []
-    for f in ("/repo/simpleline/render/widgets.py", "/repo/simpleline/render/containers.py"):
+    for f in (os.environ.get("VERIF_REPO", "/repo") + "/simpleline/render/widgets.py", os.environ.get("VERIF_REPO", "/repo") + "/simpleline/render/containers.py"):
         tree = ast.parse(open(f).read())
         for node in tree.body:
             if isinstance(node, (ast.Assign, ast.AugAssign, ast.AnnAssign)):
